@@ -745,6 +745,8 @@ class World(object):
         self.ops.append((i, self.clock.t, conn.idx if conn is not None else None, name, detail))
         self.log(conn, name, detail)
         f = self.faults.get(i)
+        if f is None and name == 'wait' and conn is not None and getattr(conn, 'wait_broken', None):
+            f = conn.wait_broken       # a descriptor on which poll() failed keeps failing
         if f is None and self.fault_hook is not None:
             f = self.fault_hook(i, name)
             if f is not None:
@@ -755,6 +757,8 @@ class World(object):
             if name == 'recv':
                 return 'eof'
             f = 'oserror'
+        if name == 'wait' and conn is not None and f in ('oserror', 'valueerror'):
+            conn.wait_broken = f
         if f == 'oserror':
             if name == 'getaddrinfo':
                 raise _real_socket.gaierror(-2, 'Name or service not known (injected)')
